@@ -38,6 +38,9 @@ NOTES = {
  "C06-r2-1": "missed by C06 (its three entries build a fresh writer per query), caught by C10's per-request OPT hygiene (job-owned edns writer slot)",
  "C06-r2-2": "missed by C06, caught by C10 (TcpConn: every reply byte is the own query's)",
  "C03-r2-2": "a revert of fix 4abbbcb: missed by C03 (whose replay does not drive the prefetch worker), caught by C19 (Prefetch.tla ECS refresh tier)",
+ "C10-r2-2": "missed at first (size CLASSES never land on the byte boundary of the drain buffer); caught after exact-size answers (reply length a function of the name) put the last pipelined frame at free-1, free, free+1 and free+2 bytes",
+ "C01-r2-3": "missed at first (the foreign signer evil.test. shares no text with the victim's zone); caught after the sibling was renamed ne.test., a textual but not label-wise suffix of zone.test.",
+ "C01-r2-1": "missed at first; caught after the question kind whost and the tampering wildforeign (wildcard expansion replayed over an existing name, next-closer 'denied' by an unsigned NSEC of the parent zone)",
 }
 rows = []
 for p in sorted(glob.glob(os.path.join(V, "seeded", "*", "meta.json"))):
